@@ -133,7 +133,8 @@ class C15(object):
         T = rng.choice([3, 5, 10, 30, 100, 300, 300])
         if d.get('loop'):
             T = min(T, 100)      # tight per-period solves of a loop with gain 0.9 are slow
-        return {'kind': 'search', 'dyn': d, 'text': render(d), 'T': T,
+        loop_default = bool(d.get('loop')) and rng.random() < 0.3
+        return {'kind': 'search', 'dyn': d, 'text': render(d), 'T': T, 'loop_default_tolerance': loop_default,
                 'tol': 10 ** rng.uniform(-8, -2), 'reduction': rng.random() < 0.5, 'via_solve': via_solve}
 
     def run_case(self, case):
@@ -146,11 +147,14 @@ class C15(object):
             s.SetInitialConditions()
         s.ParameterInitialSteadyStateMaxTime = case['T']
         s.ParameterInitialSteadyStateErrorToler = case['tol']
-        if case['dyn'].get('loop'):
+        default_step_tol = bool(case['dyn'].get('loop')) and case.get('loop_default_tolerance', False)
+        if case['dyn'].get('loop') and not default_step_tol:
             # the user asks for exact per-period solves; the search has to honour that
             s.ParameterErrorTolerance = 1e-13
             s.MaxIterations = 5000
             rec.count('inner_loop_tight_tolerance.cases')
+        elif default_step_tol:
+            rec.count('inner_loop_default_tolerance.cases')
         if case['dyn'].get('near_cancel') is not None:
             rec.count('near_cancelling_derived.cases')
         exo_names = [n for n, _ in s.Parser.Exogenous]
@@ -200,6 +204,7 @@ class C15(object):
             rec.count('accepted.judged')
             s2 = copy.deepcopy(s)
             s2.TraceStep = None
+            s2.MaxIterations = max(s2.MaxIterations, 5000)     # the further period is solved accurately, whatever it takes
             if case.get('via_solve'):
                 # SolveEquation already produced period 1 from the installed values (constant exogenous input)
                 for n in list(s2.TimeSeries.keys()):
@@ -244,6 +249,11 @@ class C15(object):
                         osc = set(case['dyn']['kinds']) & {'complex_unit', 'complex_unstable', 'neg_unstable', 'flip_zero'}
                         if legit and osc:
                             mech = 'D15_oscillation_sampled_at_turning_point'
+                        gain = case['dyn'].get('loop')
+                        if default_step_tol and gain and abs(b - a) <= (3.0 / (1.0 - gain) + 3.0) * case['tol'] * max(1.0, abs(a)):
+                            # explained by the accuracy of the search's own per-period solves (tolerance = the
+                            # acceptance tolerance, amplified by the loop gain)
+                            mech = 'D17_search_periods_solved_only_to_acceptance_tolerance'
                     except Exception:
                         pass
                     rec.violate('accepted_steady_state_moves', {'var': n, 'k0': a, 'k1': b, 'tol': case['tol'],
